@@ -200,6 +200,31 @@ def tlc_mc(ctx, module, cfg, workers=8, timeout=1800, extra_files=(), expect_vio
     return rec, out
 
 
+def tlapm(ctx, module, timeout=600, expect_fail=False):
+    """TLAPS: the theorems of a Proofs_*.tla module (unbounded statements about operators of the specification) are re-proved
+    from scratch (no fingerprint cache).  An unproved obligation is a defect of the specification's proofs: exit 2, never a violation."""
+    d = _specdir(ctx, 'tlapm.' + module)
+    t0 = time.time()
+    try:
+        rc, out = sh(['tlapm', '--threads', '8', '--cleanfp', module + '.tla'], cwd=d, timeout=timeout)
+    except subprocess.TimeoutExpired:
+        raise Inconclusive('tlapm timed out on %s' % module)
+    m = re.search(r'All (\d+) obligations? proved', out)
+    f = re.search(r'(\d+)/(\d+) obligations? failed', out)
+    rec = dict(module=module, obligations=int(m.group(1)) if m else (int(f.group(2)) if f else 0),
+               discharged=int(m.group(1)) if m else (int(f.group(2)) - int(f.group(1)) if f else 0),
+               theorems=len(re.findall(r'^THEOREM', open(os.path.join(d, module + '.tla')).read(), re.M)), wall_s=round(time.time() - t0, 1))
+    shutil.rmtree(d, ignore_errors=True)
+    if expect_fail:
+        if m or rc == 0:
+            raise Inconclusive('negative control %s: tlapm proved statements that are false' % module)
+        return rec
+    if not m or rc != 0:
+        raise Inconclusive('specification defect: tlapm did not prove %s\n%s' % (module, out[-3000:]))
+    ctx.proofs = getattr(ctx, 'proofs', []) + [rec]
+    return rec
+
+
 # ---- tiny parser for TLC-printed values
 def parse_tla(s):
     pos = [0]
@@ -423,6 +448,10 @@ def finish(ctx, level, coverage, assumptions=()):
     cov.setdefault('traces_validated_against_impl', ctx.traces)
     cov['mc_runs'] = ctx.mc_runs
     cov['trace_runs'] = ctx.trace_runs
+    if getattr(ctx, 'proofs', None):
+        cov['tlaps_proofs'] = ctx.proofs
+        cov['obligations'] = sum(p['obligations'] for p in ctx.proofs)
+        cov['discharged'] = sum(p['discharged'] for p in ctx.proofs)
     cov['known_findings_hit'] = ctx.known_hits
     cov['fidelity_mismatches'] = ctx.drift[:20]
     cov['violations_found'] = [dict(key=v['key'], what=v['what']) for v in ctx.violations[:20]]
